@@ -74,6 +74,9 @@ fn fast_transfer_options() -> NetworkAccountOptions {
     }
 }
 
+/// Files.tla constant Att.
+const ATT: [&str; 1] = ["s2"];
+
 fn content_bytes(idx: usize, slot: &str, c: &str) -> Vec<u8> {
     let mut v = format!("file content {c} of {slot} in case {idx}\n").into_bytes();
     let n = if c == "c1" { 3_000 } else { 150_000 };
@@ -345,7 +348,15 @@ pub async fn run_case(idx: usize, hist: &Value, scratch: &Path, out: &mut Summar
                     std::fs::write(&path, content_bytes(idx, &s, &c))?;
                     let (folder, fid, sid) = if name == "CreateFile" {
                         let fid = *w.folders.get(&f).ok_or_else(|| anyhow!("no folder {f}"))?;
-                        let secret: Secret = path.clone().try_into()?;
+                        let mut secret: Secret = path.clone().try_into()?;
+                        if ATT.contains(&s.as_str()) {
+                            // Files.tla Att: a second external file attached as a custom field
+                            let apath = w.inputs.join(format!("{s}_t_{n}.bin"));
+                            std::fs::write(&apath, content_bytes(idx, &s, "t"))?;
+                            let field: Secret = apath.try_into()?;
+                            let fm = SecretMeta::new("attached file".to_string(), field.kind());
+                            secret.add_field(sos_vault::secret::SecretRow::new(sos_core::SecretId::new_v4(), fm, field));
+                        }
                         let meta = SecretMeta::new(format!("file {s}"), secret.kind());
                         let ch = w
                             .editor
@@ -355,15 +366,30 @@ pub async fn run_case(idx: usize, hist: &Value, scratch: &Path, out: &mut Summar
                     } else {
                         let cur = w.slots.get(&s).ok_or_else(|| anyhow!("slot {s} empty"))?;
                         let (row, _) = w.editor.read_secret(&cur.secret_id, Some(&cur.folder_id)).await?;
-                        let ch = w
-                            .editor
-                            .update_file(
-                                &cur.secret_id,
-                                row.meta().clone(),
-                                &path,
-                                AccessOptions { folder: Some(cur.folder_id), ..Default::default() },
-                            )
-                            .await?;
+                        let ch = if ATT.contains(&s.as_str()) {
+                            // the content is replaced, the attachment is kept
+                            let mut secret: Secret = path.clone().try_into()?;
+                            for field in row.secret().user_data().fields() {
+                                secret.add_field(field.clone());
+                            }
+                            w.editor
+                                .update_secret(
+                                    &cur.secret_id,
+                                    row.meta().clone(),
+                                    Some(secret),
+                                    AccessOptions { folder: Some(cur.folder_id), ..Default::default() },
+                                )
+                                .await?
+                        } else {
+                            w.editor
+                                .update_file(
+                                    &cur.secret_id,
+                                    row.meta().clone(),
+                                    &path,
+                                    AccessOptions { folder: Some(cur.folder_id), ..Default::default() },
+                                )
+                                .await?
+                        };
                         (cur.folder.clone(), cur.folder_id, ch.id)
                     };
                     let (row, _) = w.editor.read_secret(&sid, Some(&fid)).await?;
@@ -372,6 +398,12 @@ pub async fn run_case(idx: usize, hist: &Value, scratch: &Path, out: &mut Summar
                         _ => return Err(anyhow!("not an external file secret")),
                     };
                     w.seen.insert(fname.to_string(), (s.clone(), c.clone()));
+                    for field in row.secret().user_data().fields() {
+                        if let Secret::File { content: FileContent::External { checksum, .. }, .. } = field.secret() {
+                            let an: ExternalFileName = (*checksum).into();
+                            w.seen.insert(an.to_string(), (s.clone(), "t".to_string()));
+                        }
+                    }
                     w.slots.insert(s, Slot { folder, folder_id: fid, secret_id: sid, name: fname, content: c });
                 }
                 "MoveFile" => {
@@ -418,7 +450,12 @@ pub async fn run_case(idx: usize, hist: &Value, scratch: &Path, out: &mut Summar
             Ok(())
         }
         .await;
-        res.map_err(|e| anyhow!("step {n} {:?}: {e:?}", step["op"]))?;
+        if let Err(e) = res {
+            // the model enables the operation: a failure of the code under test is an outcome
+            let text = format!("{e:?}");
+            fail(out, format!("the operation failed: {}", &text[..text.len().min(600)]));
+            break;
+        }
         out.count(&format!("op_ms:{name}"), t_op.elapsed().as_millis() as u64);
 
         if name != "SyncReader" {
